@@ -20,11 +20,12 @@ Variable L : Type.
 Variable start : L.
 Variable step : L -> input -> outcome L.
 Variable coro : bool.
+Variable agen : bool.
 
-Notation cyop := (cy_op L start step coro).
-Notation pyop := (py_op L start step coro).
-Notation runcy := (run_cy L start step coro).
-Notation runpy := (run_py L start step coro).
+Notation cyop := (cy_op L start step coro agen).
+Notation pyop := (py_op L start step coro agen).
+Notation runcy := (run_cy L start step coro agen).
+Notation runpy := (run_py L start step coro agen).
 Notation abs := (abs L).
 
 (* states between operations: not running, and a delegate only while suspended *)
@@ -34,8 +35,8 @@ Definition cwf (s : cstate L) : Prop :=
 Lemma cwf_init : cwf (c_init L).
 Proof. split; reflexivity. Qed.
 
-Lemma pep479_not_si : forall e, is_stopiter e = false -> pep479 e = e.
-Proof. intros e H; unfold pep479; rewrite H; reflexivity. Qed.
+Lemma pep479_not_si : forall e, is_stopiter e = false -> pep479 false e = e.
+Proof. intros e H; destruct e; try reflexivity; try discriminate H. cbn. rewrite andb_false_r. reflexivity. Qed.
 
 (* ---------------- one operation ---------------- *)
 Ltac unf :=
@@ -43,10 +44,11 @@ Ltac unf :=
        cy_exit_error unrun c_set_running c_set_label c_set_yf cy_close_iter arg_at_yf
        arg_of_sub_error result_of_gres py_op py_send py_throw py_close py_del py_send_ex
        py_arg_at_yf py_close_iter sub_send M_Gen.abs fx_all fx_none c_label c_running c_yf
-       fx_first_send fx_throw_si_fresh fx_close_ret fx_si_at_yf fst snd negb andb orb is_none
-       pep479 is_stopiter is_genexit].
+       fx_first_send fx_throw_si_fresh fx_close_ret fx_si_at_yf fx_ag_fresh_del fst snd negb andb orb is_none
+       is_stopiter is_genexit].
 Ltac dmg :=
   match goal with
+  | |- context [pep479 ?a ?e] => let x := fresh "pe" in generalize (pep479 a e); intro x
   | |- context [match ?x with _ => _ end] => is_var x; destruct x
   | |- context [if ?x then _ else _] => is_var x; destruct x
   | |- context [si_close ?it] => is_var it; destruct (si_close it) as [[[?|] ?]|]
@@ -67,7 +69,7 @@ Lemma op_sim : forall s o, cwf s ->
   /\ cwf (snd (fst (cyop fx_all s o))).
 Proof.
   intros [lab run yf] o [Hr Hy]; cbn in Hr, Hy; subst run.
-  destruct lab as [|k|]; [subst yf| |subst yf]; destruct o as [|v|e| |]; unfold cwf;
+  destruct lab as [|k|]; [subst yf| |subst yf]; destruct o as [|v|e| | |e]; unfold cwf;
     grind; repeat split; auto; congruence.
 Qed.
 
@@ -116,7 +118,7 @@ Definition hit_first_send (s : cstate L) (o : op) : bool :=
   match c_label s, o with RFresh, Send (VInt _) => true | _, _ => false end.
 (* B: StopIteration thrown into a just-started object *)
 Definition hit_throw_si_fresh (s : cstate L) (o : op) : bool :=
-  match c_label s, o with RFresh, Throw e => is_stopiter e | _, _ => false end.
+  match c_label s, o with RFresh, (Throw e | ThrowNC e) => is_stopiter e || (is_stopasync e && agen) | _, _ => false end.
 (* C: close()/del, and the body answers the exception with return <non-None> *)
 Definition hit_close_ret (s : cstate L) (o : op) : bool :=
   is_closing o &&
@@ -131,15 +133,25 @@ Definition hit_si_at_yf (s : cstate L) (o : op) : bool :=
   | Some it, Throw e =>
       if is_genexit e then sub_close_raises_si s
       else match si_throw it with None => is_stopiter e | Some _ => false end
+  | Some it, ThrowNC e => match si_throw it with None => is_stopiter e | Some _ => false end
   | Some _, (Close | Del) => sub_close_raises_si s
   | _, _ => false
   end.
+(* E: a never-started async generator is dropped (RuntimeWarning "coroutine ... was never awaited") *)
+Definition hit_ag_fresh_del (s : cstate L) (o : op) : bool :=
+  match c_label s, o with RFresh, Del => agen && negb coro | _, _ => false end.
 Definition avoid (s : cstate L) (o : op) : bool :=
-  negb (hit_first_send s o || hit_throw_si_fresh s o || hit_close_ret s o || hit_si_at_yf s o).
+  negb (hit_first_send s o || hit_throw_si_fresh s o || hit_close_ret s o || hit_si_at_yf s o
+        || hit_ag_fresh_del s o).
 
 Ltac dmh Ha :=
   let E := fresh "E" in
   match goal with
+  | |- context [pep479 ?a ?e] => is_var e; destruct e; cbn [pep479]
+  | |- context [pep479 ?a ?e] => let x := fresh "pe" in generalize (pep479 a e); intro x
+  | |- context [?id =? -2] => destruct (id =? -2) eqn:E; rewrite ?E in Ha
+  | |- context [if agen then _ else _] => destruct agen eqn:E; rewrite ?E in Ha
+  | |- context [if coro then _ else _] => destruct coro eqn:E; rewrite ?E in Ha
   | |- context [match ?x with _ => _ end] => is_var x; destruct x
   | |- context [if ?x then _ else _] => is_var x; destruct x
   | |- context [si_close ?it] => is_var it; destruct (si_close it) as [[[?|] ?]|] eqn:E; rewrite ?E in Ha
@@ -155,10 +167,10 @@ Ltac dmh Ha :=
 Lemma op_current : forall s o, cwf s -> avoid s o = true -> cyop fx_none s o = cyop fx_all s o.
 Proof.
   intros [lab run yf] o [Hr Hy] Ha; cbn in Hr, Hy; subst run.
-  unfold avoid, hit_first_send, hit_throw_si_fresh, hit_close_ret, hit_si_at_yf, close_exc,
+  unfold avoid, hit_first_send, hit_throw_si_fresh, hit_close_ret, hit_si_at_yf, hit_ag_fresh_del, close_exc,
     sub_close_raises_si, is_closing in Ha.
-  destruct lab as [|k|]; [subst yf| |subst yf]; destruct o as [|v|e| |];
-    unf; cbv [is_stopiter is_genexit c_label c_yf] in Ha;
+  destruct lab as [|k|]; [subst yf| |subst yf]; destruct o as [|v|e| | |e];
+    unf; cbv [is_stopiter is_genexit is_stopasync c_label c_yf] in Ha;
     repeat (cbn; cbn in Ha; dmh Ha); cbn; cbn in Ha; try discriminate Ha; reflexivity.
 Qed.
 
@@ -262,18 +274,18 @@ Definition w_step (k : Z) (i : input) : outcome Z :=
 Definition results {A B C : Type} (x : list (A * B) * C) : list A := map fst (fst x).
 
 Theorem first_send_refuted :
-  results (run_cy Z 0 w_step false fx_none (c_init Z) [Send (VInt 7); Next])
-  <> results (run_py Z 0 w_step false (p_init Z) [Send (VInt 7); Next]).
+  results (run_cy Z 0 w_step false false fx_none (c_init Z) [Send (VInt 7); Next])
+  <> results (run_py Z 0 w_step false false (p_init Z) [Send (VInt 7); Next]).
 Proof. cbv. discriminate. Qed.
 
 Theorem throw_si_fresh_refuted :
-  results (run_cy Z 0 w_step false fx_none (c_init Z) [Throw (EStopIter (VInt 5))])
-  <> results (run_py Z 0 w_step false (p_init Z) [Throw (EStopIter (VInt 5))]).
+  results (run_cy Z 0 w_step false false fx_none (c_init Z) [Throw (EStopIter (VInt 5))])
+  <> results (run_py Z 0 w_step false false (p_init Z) [Throw (EStopIter (VInt 5))]).
 Proof. cbv. discriminate. Qed.
 
 Theorem close_ret_refuted :
-  results (run_cy Z 0 w_step false fx_none (c_init Z) [Next; Close])
-  <> results (run_py Z 0 w_step false (p_init Z) [Next; Close]).
+  results (run_cy Z 0 w_step false false fx_none (c_init Z) [Next; Close])
+  <> results (run_py Z 0 w_step false false (p_init Z) [Next; Close]).
 Proof. cbv. discriminate. Qed.
 
 (* delegation to a list iterator (no throw method), then throw(StopIteration(5)) *)
@@ -283,13 +295,13 @@ Definition w_step_yf (k : Z) (i : input) : outcome Z :=
   | IThrow e => ORaise e
   end.
 Theorem si_at_yf_refuted :
-  results (run_cy Z 0 w_step_yf false fx_none (c_init Z) [Next; Throw (EStopIter (VInt 5))])
-  <> results (run_py Z 0 w_step_yf false (p_init Z) [Next; Throw (EStopIter (VInt 5))]).
+  results (run_cy Z 0 w_step_yf false false fx_none (c_init Z) [Next; Throw (EStopIter (VInt 5))])
+  <> results (run_py Z 0 w_step_yf false false (p_init Z) [Next; Throw (EStopIter (VInt 5))]).
 Proof. cbv. discriminate. Qed.
 
 (* non-vacuity: a history on the witness body that avoids the four situations and exercises
    start, send, throw, close and a second close *)
 Example avoids_nonvacuous :
-  avoids Z 0 w_step_yf false (c_init Z) [Next; Send (VInt 3); Close; Close; Next] = true
+  avoids Z 0 w_step_yf false false (c_init Z) [Next; Send (VInt 3); Close; Close; Next] = true
   /\ cwf Z (c_init Z).
 Proof. split; [reflexivity|apply cwf_init]. Qed.
